@@ -565,47 +565,74 @@ structure P2 where
   x : Nat
   distributed : Nat := 0
 
+/-- the local leg of one accepted deposit: holding pool → liquidity pool (`p.Amount += amount`, guarded) -/
+def depositLocal (s : State) (p : Pool) (chain : Nat) (d : Deposit) (isLocal : Bool) : M (State × Pool) :=
+  if isLocal then
+    match poolSub s (holdingId chain) d.amount with
+    | .error e => .error e
+    | .ok s =>
+      if (addUint64 p.amount d.amount).2 then .error .InvalidLiquidityPool
+      else .ok (s, { p with amount := (addUint64 p.amount d.amount).1 })
+  else .ok (s, p)
+
 /-- PASS 2: pro-rata points for the accepted deposits; local deposits move holding → liquidity -/
 def depositPass2 (totalDL totalDeposit chain : Nat) (isLocal : Bool) : List (Deposit × Bool) → P2 → M P2
   | [], st => .ok st
   | (_, false) :: ds, st => depositPass2 totalDL totalDeposit chain isLocal ds st
-  | (d, true) :: ds, st => do
-    let share := safeMulDiv totalDL d.amount totalDeposit
-    let p ← addPoints st.p d.addr share
-    let (s, p) ← if isLocal then do
-        let s ← poolSub st.s (holdingId chain) d.amount
-        let r := addUint64 p.amount d.amount
-        if r.2 then throw .InvalidLiquidityPool
-        pure (s, { p with amount := r.1 })
-      else pure (st.s, p)
-    let r := addUint64 st.x d.amount
-    if r.2 then throw .InvalidLiquidityPool
-    depositPass2 totalDL totalDeposit chain isLocal ds
-      { s := s, p := p, x := r.1, distributed := (st.distributed + share) % U64 }
+  | (d, true) :: ds, st =>
+    match addPoints st.p d.addr (safeMulDiv totalDL d.amount totalDeposit) with
+    | .error e => .error e
+    | .ok p =>
+      match depositLocal st.s p chain d isLocal with
+      | .error e => .error e
+      | .ok sp =>
+        if (addUint64 st.x d.amount).2 then .error .InvalidLiquidityPool
+        else depositPass2 totalDL totalDeposit chain isLocal ds
+          { s := sp.1, p := sp.2, x := (addUint64 st.x d.amount).1,
+            distributed := (st.distributed + safeMulDiv totalDL d.amount totalDeposit) % U64 }
 
 def mapErr (r : Except DepErr Nat) : M Nat :=
   match r with
   | .ok v => .ok v
   | .error _ => .error .InvalidLiquidityPool
 
+/-- `L`: the pool's points, initialised to `√(x·y)` for the dead address when there are none yet -/
+def initDead (p : Pool) (x y : Nat) : M (Nat × Pool) :=
+  if p.total = 0 then
+    match addPoints p deadAddr (sqrtProduct x y) with
+    | .error e => .error e
+    | .ok p' => .ok (sqrtProduct x y, p')
+  else .ok (p.total, p)
+
+/-- the minting part of `handleBatchDeposit` once PASS 1 accepted deposits worth `p1.total` -/
+def mintDeposits (p1 : P1) (p : Pool) (ds : List Deposit) (chain x y : Nat) (isLocal persist : Bool) : M Ledger :=
+  match initDead p x y with
+  | .error e => .error e
+  | .ok lp =>
+    match mapErr (liquidityDepositPoints lp.1 x y p1.total) with
+    | .error e => .error e
+    | .ok totalDL =>
+      match depositPass2 totalDL p1.total chain isLocal (ds.zip p1.accepted) { s := p1.s, p := lp.2, x := x } with
+      | .error e => .error e
+      | .ok p2 =>
+        match addPoints p2.p deadAddr (totalDL - p2.distributed) with
+        | .error e => .error e
+        | .ok pf => .ok { s := if persist then setPool p2.s (liquidityId chain) pf else p2.s, p := pf, x := p2.x, y := y }
+
 /-- `handleBatchDeposit` with `checkCap = false` (the capped wrapper is `batchDeposit` below) -/
 def batchDepositCore (s : State) (ds : List Deposit) (chain : Nat) (x y : Nat) (isLocal : Bool)
-    (p0 : Option Pool) (persist : Bool) : M Ledger := do
+    (p0 : Option Pool) (persist : Bool) : M Ledger :=
   let p := p0.getD (getPool s (liquidityId chain))
-  if ds = [] then return { s, p, x, y }
-  let raw ← sumDeposits ds 0
-  if raw = 0 ∨ x = 0 ∨ y = 0 then return { s, p, x, y }
-  let p1 ← depositPass1 p chain isLocal ds { s, projected := p.points.length }
-  if p1.total = 0 then return { s := p1.s, p, x, y }
-  let (L, p) ← if p.total = 0 then do
-      let L := sqrtProduct x y
-      let p ← addPoints p deadAddr L
-      pure (L, p)
-    else pure (p.total, p)
-  let totalDL ← mapErr (liquidityDepositPoints L x y p1.total)
-  let p2 ← depositPass2 totalDL p1.total chain isLocal (ds.zip p1.accepted) { s := p1.s, p, x }
-  let p ← addPoints p2.p deadAddr (totalDL - p2.distributed)
-  return { s := if persist then setPool p2.s (liquidityId chain) p else p2.s, p, x := p2.x, y }
+  if ds = [] then .ok { s, p, x, y } else
+  match sumDeposits ds 0 with
+  | .error e => .error e
+  | .ok raw =>
+    if raw = 0 ∨ x = 0 ∨ y = 0 then .ok { s, p, x, y } else
+    match depositPass1 p chain isLocal ds { s, projected := p.points.length } with
+    | .error e => .error e
+    | .ok p1 =>
+      if p1.total = 0 then .ok { s := p1.s, p, x, y }
+      else mintDeposits p1 p ds chain x y isLocal persist
 
 structure Newcomer where
   amount : Nat
